@@ -181,6 +181,9 @@ def split_cases(lines):
     return [(s, e) for s, e in zip(starts, starts[1:] + [len(lines)]) if e > s]
 
 
+RUNNER_ERRORS = []
+
+
 def run_impl(drive, suite, ops_lines, timeout, extra_env=None):
     """Run ops on the real code. Survives a dying child: the op at which the process died is
     answered `fatal` (or `hang` on timeout), the rest of that case `skipped`, and the
@@ -202,7 +205,10 @@ def run_impl(drive, suite, ops_lines, timeout, extra_env=None):
             got = p.stdout.split("\n")
             if got and got[-1] == "":
                 got.pop()
-            dead = p.returncode != 0 or len(got) < len(chunk)
+            if p.returncode != 0 and len(got) >= len(chunk) and ("DATA RACE" in p.stderr or "fatal error" in p.stderr):
+                # every line was answered but the runner reported a data race / runtime fatal error on exit
+                RUNNER_ERRORS.append((suite, p.returncode, p.stderr[-1500:]))
+            dead = len(got) < len(chunk)
         except subprocess.TimeoutExpired as e:
             so = e.stdout or ""
             if isinstance(so, bytes):
@@ -635,6 +641,8 @@ def main(argv):
                 broken = ("spec:%s judged the implementation's output wrong (%s)" % (S.spec or S.judge or S.model, extra)) if concrete \
                     else ("corr:%s (model %s and implementation differ; theorems of %s no longer transfer)" % (S.name, S.model, ",".join(conf.get("lean_modules", []))))
                 violation(S.name, broken, rec, concrete, opl, small, extra)
+    for (sname, rcx, tail) in RUNNER_ERRORS[:3]:
+        violation(sname, "corr:%s the runner process reported a data race / fatal error (exit %s)" % (sname, rcx), {"stderr": tail}, False)
     # ---- 5. report + evidence
     for fid, f in known_hit.items():
         log("KNOWN-FINDING: property=%s %s [%s]" % (prop, f["what"], fid))
@@ -662,8 +670,11 @@ def main(argv):
         "assumptions": conf.get("assumptions", []),
         "wall_s": round(wall, 2), "violations": len(violations),
     }
-    os.makedirs(os.path.join(VERIF, "evidence"), exist_ok=True)
-    json.dump(ev, open(os.path.join(VERIF, "evidence", prop + ".json"), "w"), indent=1)
+    # evidence of a run against a scratch tree (VERIF_REPO, used only by tools/seedcheck.py) never
+    # replaces the evidence of /repo itself
+    evdir = os.environ.get("VERIF_EVIDENCE") or (os.path.join(VERIF, "evidence") if REPO == "/repo" else os.path.join(VERIF, "out", "scratch-evidence"))
+    os.makedirs(evdir, exist_ok=True)
+    json.dump(ev, open(os.path.join(evdir, prop + ".json"), "w"), indent=1)
     log("%s %s seed=%d: %d theorems audited, %d cases / %d ops, %d known finding(s), %d violation(s), %.1fs"
         % (prop, tier, seed, obligations, cov["evaluations"], cov["ops"], len(known_hit), len(violations), wall))
     return 1 if violations else 0
